@@ -114,6 +114,20 @@ theorem validate_single_asset {L O tx fork i o} (h : validate L O tx fork = .acc
 
 
 
+/-- the ledger invariant "stored outputs have positive amounts" (hypothesis `utxoPos` of
+    C05.validate_total) is preserved by materialising an accepted transaction's outputs -/
+theorem materialise_pos {L O tx fork i o} (h : validate L O tx fork = .accept i o) :
+    ∀ u ∈ materialise tx, 0 < u.amount := by
+  intro u hu
+  simp only [materialise, List.mem_map, List.mem_filter] at hu
+  obtain ⟨p, ⟨hp, _⟩, rfl⟩ := hu
+  have hmem : p.1 ∈ tx.outputs := by
+    have := List.mem_zipIdx hp
+    simp at this
+    have h2 := this.2
+    rw [h2]; exact List.getElem_mem _
+  exact (validate_conserves h).2.2.2.2.2 p.1 hmem
+
 /-! ### Non-vacuity: the model accepts a 2-in / 3-out transfer, a deposit and a mint -/
 namespace Example
 open Mixin.Validate
